@@ -174,8 +174,6 @@ def deriveSpec (ms gs : List Char) (bk : Option (Nat × Nat)) : Option String :=
   | none => some base
   | some (b, k) => if b ^ k == 0 then none else some (base ++ " " ++ hex (Spec.powMod g (t / b ^ k) p))
 
-def decNat? (s : String) : Option Nat := s.toNat?
-
 def run' (cache : Cache) (op : String) (args : List String) (impl : String) : Option (Cache × String × String) := do
   match op, args with
   | "bigint", [n, s] =>
@@ -209,8 +207,15 @@ def run' (cache : Cache) (op : String) (args : List String) (impl : String) : Op
     some (cache, deriveModel ms gs none none false, vs impl want)
   | "derivess", [ms, gs, b, k] =>
     let ms ← unesc ms; let gs ← unesc gs; let bs ← unesc b; let ks ← unesc k
-    let bn ← decNat? (String.ofList (bs.filter (· != '+'))); let kn ← decNat? (String.ofList (ks.filter (· != '+')))
-    let want := (deriveSpec ms gs (some (bn, kn))).getD "panic"
+    -- base / power: unsigned 32-bit decimal numbers (an optional `+` in front)
+    let u32? (cs : List Char) : Option Nat :=
+      match denote false cs with
+      | some r => if r.strictUnsigned || (r.signs1 == 1 && r.minus == 0) then
+          (if cs.all (· != '_') && r.value.toNat < 2 ^ 32 then some r.value.toNat else none) else none
+      | none => none
+    let want := match u32? bs, u32? ks with
+      | some bn, some kn => (deriveSpec ms gs (some (bn, kn))).getD "panic"
+      | _, _ => "panic"
     some (cache, deriveModel ms gs (some bs) (some ks) true, vs impl want)
   | _, fl :: n :: p :: rest =>
     let cache ← getCfg cache fl n p
